@@ -61,6 +61,32 @@ def _oracle(args):
             return ('bad', 'token order changed', sum(want.values()))
     return ('ok', None, sum(want.values()))
 
+def _pair_oracle(args):
+    """documents in which every FOOTNOTE block has exactly one reference (before or after it): every word once, and no
+    word of markup (FOOTNOTE, the placeholder) in the body"""
+    seed, root = args
+    import random
+    from props import C14
+    text, want = C14.pair_doc(random.Random(seed))
+    try:
+        xml = impl.parser().parse_to_xml(text, root)
+    except Exception as e:
+        return ('raised', impl.exc_kind(e), text)
+    ns = '{%s}' % xmlsx.NS
+    words = []
+    for el in xml.iter():
+        if el.tag == ns + 'meta' or any(a.tag == ns + 'meta' for a in el.iterancestors()): continue
+        for t in (el.text, el.tail):
+            if t: words += t.split()
+    got = collections.Counter(w for w in words if re.fullmatch(r'[a-z]+\d+z', w))
+    exp = collections.Counter(re.findall(r'[a-z]+\d+z', text))
+    if got != exp:
+        return ('bad', 'tokens lost %r, duplicated/invented %r' % (list((exp - got).elements())[:3], list((got - exp).elements())[:3]), text)
+    extra = [w for w in words if w in ('FOOTNOTE', '(content', 'missing)')]
+    if extra:
+        return ('bad', 'markup words in the body although every footnote block is referenced: %r' % extra[:3], text)
+    return ('ok', None, text)
+
 def cases(ctx, n):
     out = []
     for _ in range(n):
@@ -76,6 +102,11 @@ def correspondence(ctx):
     stages.stage_dict(ctx, [(c[1], p.pre_parse(c[3])) for c in cs[:ctx.n(300, 10000)]])
 
 def search(ctx, budget):
+    pj = [(ctx.rng.randrange(1 << 30), ctx.rng.choice(gen.ROOTS6)) for _ in range(ctx.n(300, 10000) * budget)]
+    for j, r in zip(pj, impl.pmap(_pair_oracle, pj, chunk=16)):
+        ctx.evaluations += 1; ctx.count('footnote_pairs_' + r[0])
+        if r[0] == 'bad':
+            ctx.failures.append(({'stage': 'pairs', 'seed': j[0], 'root': j[1], 'text': r[2]}, r[1]))
     cs = list(getattr(ctx, '_docs', [])) + (cases(ctx, ctx.n(700, 40000) * (budget - 1)) if budget > 1 else [])
     for c, r in zip(cs, impl.pmap(_oracle, cs, chunk=8)):
         ctx.evaluations += 1; ctx.count('oracle_' + r[0])
@@ -96,6 +127,8 @@ def replay(obj):
     case = obj.get('case') or (obj.get('disagreements') or [{}])[0].get('case')
     if not case:
         print('nothing to replay:', obj.get('broken_obligations')); return 1
+    if case.get('stage') == 'pairs':
+        r = _pair_oracle((case['seed'], case['root'])); print(r[:2]); return 1 if r[0] == 'bad' else 0
     ok = stages.replay_stage(case)
     if 'uri' in case:
         r = _oracle((case['uri'], case['root'], case['prefix'], case['text'])); print('oracle:', r)
